@@ -563,7 +563,8 @@ def falsy_numeric_default(fn):
         if isinstance(e, ast.Attribute):
             return e.attr in ('inf', 'infty', 'Inf', 'nan', 'pi')
         if isinstance(e, ast.Call):
-            return dotted(e.func) == 'float'
+            f_ = (dotted(e.func) or '').rsplit('.', 1)[-1]
+            return f_ == 'float' or (f_ in ('exp', 'sqrt', 'log', 'log10') and len(e.args) == 1 and numeric(e.args[0]))
         return False
     out = []
     for n in ast.walk(fn):
@@ -1095,6 +1096,22 @@ class K:
     def _configure(self):
         if not self._width:
             raise ValueError('not configured yet')
+
+    def refill(self, items):
+        self._items = {}
+        for item in items:
+            if not isinstance(item, str):
+                raise TypeError('rejected after the reset')
+            self._items[item] = 1
+
+    def refill_checked(self, items):
+        items = tuple(items)
+        for item in items:
+            if not isinstance(item, str):
+                raise TypeError('rejected in time')
+        self._items = {}
+        for item in items:
+            self._items[item] = 1
 '''
 
 
@@ -1103,9 +1120,10 @@ def selfcheck_generic():
     tree = ast.parse(_SWV_EXAMPLE)
     meths = {f.name: f for f in tree.body[0].body}
     got = [f.name for f in tree.body[0].body if state_written_before_validation(f, meths)]
-    if got != ['late', 'through_helper']:
+    got2 = [f.name for f in tree.body[0].body if state_rebuilt_while_validating(f)]
+    if got != ['late', 'through_helper'] or got2 != ['refill']:
         from ..report import AnalysisError
-        raise AnalysisError('stored-before-validated rule self-check failed: %s' % got)
+        raise AnalysisError('stored-before-validated rule self-check failed: %s %s' % (got, got2))
 
 
 def derived_from_aliased_input(fn):
@@ -1201,4 +1219,48 @@ def derived_from_aliased_input(fn):
                 out.append((k, name, p, st))
             elif isinstance(tg, ast.Name) and tg.id != name and kept(tg.id) is not None:
                 out.append((k, name, p, st))
+    return out
+
+
+def state_rebuilt_while_validating(fn):
+    """[(store stmt, field, guard stmt)]: a method other than a constructor validates the elements of an argument inside the same loop that
+    already refills the object's state from them (or after a statement that has already reset that state): when the k-th element is rejected
+    the caller gets the exception, but the object has lost its old content and holds the first k-1 new entries -- and the notification that
+    follows the loop never runs, so nothing that depends on the object learns of the change."""
+    if fn.name in ('__init__', '__cinit__', '__setstate__', '__new__'):
+        return []
+    a = fn.args
+    params = {x.arg for x in a.posonlyargs + a.args + a.kwonlyargs} - {'self', 'cls'}
+    if not params:
+        return []
+    # locals that are the argument under another name (tuple(x), list(x))
+    same = set(params)
+    for st in ast.walk(fn):
+        if isinstance(st, ast.Assign) and len(st.targets) == 1 and isinstance(st.targets[0], ast.Name):
+            v = st.value
+            if isinstance(v, ast.Call) and dotted(v.func) in ('tuple', 'list', 'iter', 'sorted') and len(v.args) == 1 and isinstance(v.args[0], ast.Name) and v.args[0].id in same:
+                same.add(st.targets[0].id)
+    out = []
+
+    def self_store(st):
+        tg = st.targets[0] if isinstance(st, ast.Assign) else (st.target if isinstance(st, ast.AugAssign) else None)
+        while isinstance(tg, ast.Subscript):
+            tg = tg.value
+        if isinstance(tg, ast.Attribute) and isinstance(tg.value, ast.Name) and tg.value.id == 'self':
+            return tg.attr
+        return None
+
+    body = fn.body
+    for i, st in enumerate(body):
+        if not (isinstance(st, ast.For) and isinstance(st.iter, ast.Name) and st.iter.id in same):
+            continue
+        lvars = {x.id for x in ast.walk(st.target) if isinstance(x, ast.Name)}
+        guards = [g for g in ast.walk(st) if isinstance(g, ast.If) and g.body and isinstance(g.body[-1], ast.Raise)
+                  and {x.id for x in ast.walk(g.test) if isinstance(x, ast.Name)} & lvars]
+        if not guards:
+            continue
+        before = [(b, self_store(b)) for b in body[:i] if isinstance(b, (ast.Assign, ast.AugAssign)) and self_store(b)]
+        inside = [(b, self_store(b)) for b in ast.walk(st) if isinstance(b, (ast.Assign, ast.AugAssign)) and self_store(b)]
+        for b, fld in (before + inside)[:1]:
+            out.append((b, fld, guards[0]))
     return out
